@@ -813,6 +813,39 @@ func runC17(c *Ctx) {
 		}
 	}
 
+	// equal-named functions whose files differ only by a prefix that path trimming removes (configured
+	// trim paths, the built-in /proc/self/cwd/ and /proc/self/cwd/./ prefixes): the displayed file names
+	// coincide, the sources must stay apart (interning is by the function's own file name)
+	{
+		type c17tc struct {
+			trim  string
+			files []string
+		}
+		for ti, tc := range []c17tc{
+			{"/build/a:/build/b", []string{"/build/a/src/run.go", "/build/b/src/run.go", "src/run.go"}},
+			{"", []string{"/proc/self/cwd/src/run.go", "src/run.go", "/proc/self/cwd/./src/run.go"}},
+			{"/src", []string{"/src/x.go", "x.go", "/proc/self/cwd/x.go"}},
+			{"/src/", []string{"/src/x.go", "x.go", "/src//x.go"}},
+			{":", []string{"/x.go", "x.go", "//x.go"}},
+			{"/nowhere:/a/", []string{"/a/y.go", "y.go", "/nowhere/y.go"}},
+		} {
+			for _, gran := range []string{"raw", "filefunctions", "files", "lines", "functions"} {
+				p := &profile.Profile{SampleType: []*profile.ValueType{{Type: "cpu", Unit: "ms"}}}
+				for j, fl := range tc.files {
+					f := &profile.Function{ID: uint64(j + 1), Name: "run", SystemName: "run", Filename: fl}
+					l := &profile.Location{ID: uint64(j + 1), Line: []profile.Line{{Function: f, Line: 7}}}
+					p.Function, p.Location = append(p.Function, f), append(p.Location, l)
+					p.Sample = append(p.Sample, &profile.Sample{Location: []*profile.Location{l}, Value: []int64{int64(10 * (j + 1))}})
+				}
+				// one stack through all of them, and a repeated one
+				p.Sample = append(p.Sample, &profile.Sample{Location: append([]*profile.Location{}, p.Location...), Value: []int64{7}},
+					&profile.Sample{Location: []*profile.Location{p.Location[1]}, Value: []int64{-3}})
+				c17Aggregate(p, gran, false, false)
+				c17Direct(c, "trim-collide", p, c17Opts{index: 0, meanDiv: -1, typ: "cpu", unit: "ms", trim: tc.trim}, "gran:"+gran, fmt.Sprintf("trimcase:%d", ti))
+			}
+		}
+	}
+
 	n := c.Budget(400, 30000)
 	for k := 0; k < n; k++ {
 		p := c17Profile(c.R, false)
